@@ -44,5 +44,32 @@ TEXTS = {
                  "against Model/Walk.v."),
         "technique": "Coq proof (chain induction with seen-set invariant) + refutation witnesses + proved-model differential testing of all lookups",
     },
+    "C17": {
+        "text": ("Graph level: Coq theorems over the executable model of prune_types, for any graph: termination, the "
+                 "pruned graph keeps exactly the entries/redirects whose key is code-reachable from the roots "
+                 "(C17_entries), the code view of every kept entry is unchanged, nothing type-related is left, the "
+                 "graph reports code-only with no imports. The real prune result is compared structurally with the "
+                 "model's on every case. Build level: prune(build All) vs build CodeOnly is decided on the real code "
+                 "by the extracted observational-equality function on thousands of proviso worlds; two genuine "
+                 "divergences are recorded as known findings (F-C17a, F-C17b). The build-level theorem over a "
+                 "builder model is not yet proved: partial."),
+        "design_ref": "DESIGN.md section 5 C17, section 6",
+        "note": ("Trusted: Coq kernel; extraction; harness abstraction and shared interning across the three graphs; "
+                 "the code-only build is given no configured type imports; default build options."),
+        "technique": "Coq proof (worklist reachability instance) + structural model/implementation comparison + relational check on real builds judged by extracted Coq function",
+    },
+    "C18": {
+        "text": ("Graph level: Coq theorems over the executable model of segment: termination, identity when the "
+                 "requested roots are roots, otherwise exactly the entries and redirects the (C15-characterised) "
+                 "walk hands out, imports cloned. The unrestricted self-containedness claim is refuted "
+                 "(C18_typesonly_refuted, known finding F-C18a). Per case on the real code: the real segment equals "
+                 "the model's structurally; self-containedness is decided by an extracted function proved "
+                 "equivalent to the declarative statement; entries are compared with a real direct build. Partial: "
+                 "no theorem yet that segments of builder-produced graphs are self-contained / equal direct builds."),
+        "design_ref": "DESIGN.md section 5 C18, section 6",
+        "note": ("Trusted: Coq kernel; extraction; harness abstraction with shared interning; configured imports only "
+                 "for graph kinds that include types; roots are plain (attribute-less) targets under the proviso."),
+        "technique": "Coq proof (characterisation of segment via the walk theorem) + proved decision procedure on real segments + relational check against real direct builds",
+    },
 }
 NOT_YET = {}
